@@ -15,6 +15,7 @@ import contextlib
 import io
 import itertools
 import math
+import warnings
 
 ID = 'C09'
 LEVEL = 'model_checking'
@@ -32,7 +33,12 @@ RULE = ('for each (solver class, option tuple): depth-first enumeration of every
         'maxiter=4 trees over an 8-symbol "mini" alphabet for stall_limit 2 and 3; one trace = one '
         'maximal consumed word; non-trivial = the solver consumed at least two norms (at least one '
         'stop/continue decision after an iteration); distinct outcome = (reported verdict, '
-        'AnalysisError, reason admitted by the reference)')
+        'AnalysisError, reason admitted by the reference); plus an un-scripted family: 3 real models '
+        '(explicit cycle; three coupled implicit states of which one is / is not off its root) x '
+        '{NLBGS, NLBJ, Newton, Broyden with every non-empty state_vars subset} x maxiter in '
+        '{1,2,3,6,25} x 5 tolerance settings x 3 (err_on_non_converge, iprint) settings, where the '
+        'residual norm of the system is measured independently after the solve and compared with '
+        'the reported verdict (a factor 10 around each tolerance is left undecided)')
 LEVEL_TEXT = ('The termination logic of the shared solver loop only depends on the sequence of residual '
               'norms and a handful of options; all sequences over a 16-symbol abstract alphabet up to '
               'maxiter+1 answers are enumerated for the option grid (maxiter, tolerances, stall_limit, '
@@ -128,7 +134,7 @@ def cases(tier, seed):
         for opts in _option_tuples(cls, tier):
             out.append({'kind': 'tree', 'cls': cls, 'opts': opts, 'pal': pal})
     out.sort(key=lambda c: (c['opts']['maxiter'], c['opts']['cs']))     # simplest first
-    return out
+    return _real_cases(tier) + out
 
 
 # ------------------------------------------------------------------ alphabet (symbols -> values)
@@ -469,7 +475,184 @@ def _word_values(syms, pal, level='full'):
     return vals
 
 
+# ------------------------------------------------------------------ un-scripted family (real norms)
+# "A solve that reports success never leaves a residual norm above both tolerances": here nothing is
+# scripted.  Real solvers run on small real models with their own norm functions; afterwards the
+# residual norm of the solver's system is measured independently (run_apply_nonlinear + the
+# residual values of list_outputs) and compared with what the solver reported.
+
+REAL_MAXITER = (1, 2, 3, 6, 25)
+REAL_TOLS = (('atol', 1e-3, 0.0), ('atol', 1e-9, 0.0), ('rtol', 0.0, 1e-3), ('rtol', 0.0, 1e-9),
+             ('both', 1e-9, 1e-3))
+REAL_REPORT = ((True, -1), (True, 0), (False, 0))          # (err_on_non_converge, iprint)
+_IMP_STATES = ('st1.x1', 'st2.x2', 'oth.z')
+
+
+def _real_cases(tier):
+    out = []
+    for model in ('cyc', 'imp', 'imp_ok'):
+        if model == 'cyc':
+            solvers = [('NLBGS', None), ('NLBJ', None), ('Newton', None), ('Broyden', None),
+                       ('Broyden', ['y1']), ('Broyden', ['y2'])]
+        else:
+            solvers = [('NLBGS', None), ('NLBJ', None), ('Newton', None)]
+            for r in (1, 2, 3):
+                for sub in itertools.combinations(_IMP_STATES, r):
+                    solvers.append(('Broyden', list(sub)))
+        for cls, sv in solvers:
+            out.append({'kind': 'real', 'model': model, 'cls': cls, 'state_vars': sv})
+    return out
+
+
+def _real_problem(model, cls, sv, maxiter, atol, rtol, err, iprint):
+    import openmdao.api as om
+
+    class Lin(om.ExplicitComponent):
+        def __init__(self, i, o, a, b):
+            super().__init__()
+            self.i, self.o, self.a, self.b = i, o, a, b
+
+        def setup(self):
+            self.add_input(self.i, 1.0)
+            self.add_output(self.o, 1.0)
+            self.declare_partials(self.o, self.i, val=self.a)
+
+        def compute(self, inputs, outputs):
+            outputs[self.o] = self.a * inputs[self.i] + self.b
+
+    class ImpLin(om.ImplicitComponent):
+        """R = out - a * inp - b ; nobody solves it but the group's solver"""
+        def __init__(self, i, o, a, b, o0):
+            super().__init__()
+            self.i, self.o, self.a, self.b, self.o0 = i, o, a, b, o0
+
+        def setup(self):
+            self.add_input(self.i, 1.0)
+            self.add_output(self.o, self.o0)
+            self.declare_partials(self.o, self.o, val=1.0)
+            self.declare_partials(self.o, self.i, val=-self.a)
+
+        def apply_nonlinear(self, inputs, outputs, residuals):
+            residuals[self.o] = outputs[self.o] - self.a * inputs[self.i] - self.b
+
+    p = om.Problem(reports=None)
+    m = p.model
+    if model == 'cyc':
+        m.add_subsystem('c1', Lin('y2', 'y1', 0.5, 1.0), promotes=['*'])
+        m.add_subsystem('c2', Lin('y1', 'y2', 0.25, 1.5), promotes=['*'])
+    else:
+        m.add_subsystem('st1', ImpLin('x2', 'x1', 0.5, 1.0, 1.0))
+        m.add_subsystem('st2', ImpLin('x1', 'x2', 0.25, 1.5, 1.0))
+        # imp: z is off its root; imp_ok: z does not depend on the others and starts at its root
+        m.add_subsystem('oth', ImpLin('x1', 'z', 0.5 if model == 'imp' else 0.0, 3.0,
+                                      0.0 if model == 'imp' else 3.0))
+        m.connect('st1.x1', ['st2.x1', 'oth.x1'])
+        m.connect('st2.x2', 'st1.x2')
+    if cls == 'Newton':
+        nl = m.nonlinear_solver = om.NewtonSolver(solve_subsystems=False)
+    elif cls == 'Broyden':
+        nl = m.nonlinear_solver = om.BroydenSolver()
+        if sv is not None:
+            nl.options['state_vars'] = list(sv)
+    elif cls == 'NLBGS':
+        # by default NLBGS measures the change of the outputs over a sweep, which is the residual
+        # only for explicit components; with states nobody solves it is told to use the residuals
+        nl = m.nonlinear_solver = om.NonlinearBlockGS(use_apply_nonlinear=(model != 'cyc'))
+    else:
+        nl = m.nonlinear_solver = om.NonlinearBlockJac()
+    m.linear_solver = om.DirectSolver()
+    nl.options['maxiter'] = maxiter
+    nl.options['atol'] = atol
+    nl.options['rtol'] = rtol
+    nl.options['iprint'] = iprint
+    nl.options['err_on_non_converge'] = err
+    p.setup()
+    p.final_setup()
+    return p
+
+
+def _resid_norm(p):
+    import numpy as np
+    p.model.run_apply_nonlinear()
+    data = p.model.list_outputs(residuals=True, val=False, return_format='dict', out_stream=None)
+    return float(np.sqrt(sum(np.sum(np.asarray(meta['resids'], dtype=float) ** 2)
+                             for meta in data.values())))
+
+
+def _check_real(case):
+    from openmdao.core.analysis_error import AnalysisError
+    model, cls, sv = case['model'], case['cls'], case['state_vars']
+    only = case.get('only')
+    outcomes = collections.Counter()
+    vios, per_sig = [], collections.Counter()
+    evals = nontriv = 0
+    svl = 'all' if sv is None else '+'.join(sv)
+    for maxiter in REAL_MAXITER:
+        for tname, atol, rtol in REAL_TOLS:
+            for err, iprint in REAL_REPORT:
+                key = [maxiter, tname, atol, rtol, err, iprint]
+                if only is not None and key != only:
+                    continue
+                buf = io.StringIO()
+                raised, exc = False, None
+                try:
+                    with contextlib.redirect_stdout(buf), \
+                            contextlib.redirect_stderr(io.StringIO()), warnings.catch_warnings():
+                        warnings.simplefilter('ignore')
+                        p = _real_problem(model, cls, sv, maxiter, atol, rtol, err, iprint)
+                        norm0 = _resid_norm(p)
+                        try:
+                            p.run_model()
+                        except AnalysisError:
+                            raised = True
+                        text = buf.getvalue()
+                        norm = _resid_norm(p)
+                except Exception as e:
+                    exc = '%s: %s' % (type(e).__name__, str(e)[:200])
+                evals += 1
+                scls = 'model=%s,%s,state_vars=%s' % (model, cls, svl)
+
+                def V(what, msg):
+                    sig = 'C09:real_%s:%s' % (what, scls)
+                    per_sig[sig] += 1
+                    if per_sig[sig] <= 2:
+                        vios.append({'sig': sig, 'case': dict(case, only=key),
+                                     'msg': '%s maxiter=%d atol=%g rtol=%g err=%s iprint=%d: %s' % (
+                                         scls, maxiter, atol, rtol, err, iprint, msg)})
+                if exc is not None:
+                    V('raises', exc)
+                    outcomes['real_exception'] += 1
+                    continue
+                reported = raised or ('ailed to' in text) or ('NaN' in text)
+                # a factor 10 on either side of a tolerance is left undecided (the norm the solver
+                # saw last and the independent measurement agree to rounding only)
+                above = (norm > 10 * atol) and (rtol == 0.0 or norm > 10 * rtol * norm0)
+                below = (norm <= atol / 10) or (rtol > 0.0 and norm <= rtol * norm0 / 10)
+                if above and not reported:
+                    V('success_above_tolerances', 'no failure reported but the residual norm of '
+                      'the system is %.3e (initial %.3e)' % (norm, norm0))
+                if above and err and not raised:
+                    V('missing_AnalysisError', 'residual norm %.3e (initial %.3e) and '
+                      'err_on_non_converge=True' % (norm, norm0))
+                if raised and not err:
+                    V('unexpected_AnalysisError', 'err_on_non_converge=False')
+                if below and reported:
+                    V('failure_though_converged', 'failure reported but the residual norm of the '
+                      'system is %.3e (initial %.3e)' % (norm, norm0))
+                if iprint < 0 and text.strip():
+                    V('printed_with_iprint_-1', text.strip()[:120])
+                lab = 'real_%s_%s' % ('fail' if reported else 'ok',
+                                      'above' if above else 'below' if below else 'near')
+                outcomes[lab] += 1
+                nontriv += int(above or below)
+    return {'evals': evals, 'nontrivial': nontriv, 'outcome': dict(outcomes), 'violations': vios,
+            'counters': {'states': evals, 'transitions': evals, 'traces': evals},
+            'sample': {'real': '%s/%s/%s' % (model, cls, svl), 'runs': evals}}
+
+
 def check_case(case):
+    if case['kind'] == 'real':
+        return _check_real(case)
     cls, opts, pal = case['cls'], case['opts'], case['pal']
     if case['kind'] == 'word':
         h = Harness(cls, opts, pal)
